@@ -3141,7 +3141,15 @@ fn fault_sweep_case(args: &Args, idx: u64, rng: &mut Rng, rep: &mut Report) {
 	let unit = if rng.chance(2, 3) { rng.below((first_frame + 2).min(n_units) as u64) as usize } else { rng.below(n_units as u64) as usize };
 	let ulen = unit_lens[unit];
 	let is_frame = unit >= first_frame;
-	let kind_id = if is_frame { rng.below(7) } else { rng.below(4) };
+	let mut kind_id = if is_frame { rng.below(7) } else { rng.below(4) };
+	if kind_id == 4 && unit == first_frame {
+		// no earlier frame to replay in front of Init: duplicate it instead
+		kind_id = 5;
+	}
+	if kind_id == 6 && unit + 1 == n_units {
+		// the last frame has no successor to swap with
+		kind_id = 5;
+	}
 	let offsets: Vec<usize> = if ulen <= 140 {
 		(0..ulen).collect()
 	} else {
